@@ -362,22 +362,32 @@ func TestVerifSession(t *testing.T) {
 	}
 	// real expiry by waiting: a token that was presented (and accepted) before must still expire on time.
 	// Token times have a resolution of one second, so "fresh" is probed well inside and "expired" well outside.
-	short, _ := NewWebSessionFactory(2 * time.Second)
+	short, _ := NewWebSessionFactory(4 * time.Second)
 	_, _, tok := short.Generate("alice", true)
 	_, _, tok2 := short.Generate("bob", false) // never presented before its expiry
+	_, _, tok3 := short.Generate("carol", false) // first presented late in its life
 	issuedAt := time.Now()
-	for _, at := range []time.Duration{0, 500 * time.Millisecond, 950 * time.Millisecond, 3200 * time.Millisecond, 3900 * time.Millisecond} {
+	for _, at := range []time.Duration{0, 1000 * time.Millisecond, 2900 * time.Millisecond, 5100 * time.Millisecond, 5600 * time.Millisecond} {
 		time.Sleep(time.Until(issuedAt.Add(at)))
 		st, _, _, _ := short.Check(tok)
-		if at < time.Second && st != http.StatusOK {
+		if at < 3*time.Second && st != http.StatusOK {
 			sViolate("expiry:fresh-rejected", fmt.Sprintf("age %v: status %d", at, st), nil)
 		}
-		if at > 3*time.Second && st == http.StatusOK {
-			sViolate("expiry:expired-accepted", fmt.Sprintf("token accepted %v after issue with a 2 s lifetime (it had been presented before)", at), nil)
+		if at >= 2900*time.Millisecond {
+			st3, _, _, _ := short.Check(tok3)
+			if at < 3*time.Second && st3 != http.StatusOK {
+				sViolate("expiry:fresh-rejected", fmt.Sprintf("first presentation at age %v: status %d", at, st3), nil)
+			}
+			if at > 5*time.Second && st3 == http.StatusOK {
+				sViolate("expiry:expired-accepted", fmt.Sprintf("token first presented at age 2.9 s is accepted %v after issue with a 4 s lifetime", at), nil)
+			}
+		}
+		if at > 5*time.Second && st == http.StatusOK {
+			sViolate("expiry:expired-accepted", fmt.Sprintf("token accepted %v after issue with a 4 s lifetime (it had been presented before)", at), nil)
 		}
 	}
 	if st, _, _, _ := short.Check(tok2); st == http.StatusOK {
-		sViolate("expiry:expired-accepted-first-presentation", "token accepted 3.9 s after issue with a 2 s lifetime", nil)
+		sViolate("expiry:expired-accepted-first-presentation", "token accepted 5.6 s after issue with a 4 s lifetime", nil)
 	}
 	var vs []sViolation
 	for _, v := range sViol {
